@@ -405,7 +405,12 @@ func vf7FieldEqual(got reflect.Value, want reflect.Value) bool {
 	return reflect.DeepEqual(got.Interface(), want.Interface())
 }
 
-func vf7Run(site string, pt reflect.Type, kinds []*vf7Kind, declared *arrow.Schema, sh vf7Shape) vf7Result {
+var vf7WrapSchema = arrow.NewSchema([]arrow.Field{{Name: "request", Type: arrow.BinaryTypes.Binary}}, nil)
+
+// vf7Run sends one batch shape. With wrapped set the batch travels as the inner
+// IPC stream of a lone binary "request" column (the wrapped-request shape every
+// method accepts); the equality requirement then applies to that inner batch.
+func vf7Run(site string, pt reflect.Type, kinds []*vf7Kind, declared *arrow.Schema, sh vf7Shape, wrapped bool) vf7Result {
 	vf7Calls = nil
 	vfResetEvents()
 	batch := vf7Batch(sh.Cols)
@@ -420,6 +425,16 @@ func vf7Run(site string, pt reflect.Type, kinds []*vf7Kind, declared *arrow.Sche
 		}
 	}
 	req := vfRequest("m", batch)
+	if wrapped {
+		bb := array.NewBinaryBuilder(vfMem, arrow.BinaryTypes.Binary)
+		bb.Append(vfStreamBytes(batch.Schema(), batch))
+		arr := bb.NewArray()
+		bb.Release()
+		outer := array.NewRecordBatch(vf7WrapSchema, []arrow.Array{arr}, 1)
+		arr.Release()
+		req = vfRequest("m", outer)
+		outer.Release()
+	}
 	stream := strings.HasSuffix(site, "stream-init")
 	s := vf7Server(pt, stream)
 	var body []byte
@@ -592,17 +607,55 @@ func TestVerif_C07(t *testing.T) {
 		}
 		shapes := vf7Shapes(ks, declared)
 		sh := shapes[x.Choose(len(shapes), "shape")]
-		res := vf7Run(site, pt, ks, declared, sh)
+		res := vf7Run(site, pt, ks, declared, sh, false)
 		if res.Problem != "" {
 			sig := fmt.Sprintf("C07:%s:%s:%s", res.Problem, sh.Class, res.Kind)
 			if site != "pipe-unary" {
 				// name the site only when the pipe unary path handles the same case correctly
-				if ref := vf7Run("pipe-unary", pt, ks, declared, sh); ref.Problem != res.Problem {
+				if ref := vf7Run("pipe-unary", pt, ks, declared, sh, false); ref.Problem != res.Problem {
 					sig += ":" + site
 				}
 			}
 			x.Failf(sig, "%s, params %s, shape %s: %s", site, pt, sh.Name, res.Detail)
 		}
 		x.Outcome("%s", res.Outcome)
+	})
+
+	// The same structs and shapes in the wrapped-request form: the batch is the
+	// inner IPC stream of a lone binary "request" column, which the decoder
+	// unwraps for every method. The statement's equality requirement applies to
+	// the batch that is unwrapped.
+	wsites := venum.QT([]string{"pipe-unary"}, []string{"pipe-unary", "http-unary", "pipe-stream-init", "http-stream-init"})
+	venum.Explore(t, venum.Cfg{Name: "bind-wrapped", Shardable: true}, func(x *venum.X) {
+		ks := family[x.Choose(len(family), "struct")]
+		if len(ks) > 2 {
+			x.Outcome("three-field structs are explored in the direct form only")
+			return
+		}
+		site := wsites[x.Choose(len(wsites), "site")]
+		pt := vf7StructType(ks)
+		declared, err := structToSchema(pt)
+		if err != nil {
+			x.Failf("C07:struct-rejected", "structToSchema(%s): %v", pt, err)
+			return
+		}
+		shapes := vf7Shapes(ks, declared)
+		sh := shapes[x.Choose(len(shapes), "shape")]
+		res := vf7Run(site, pt, ks, declared, sh, true)
+		if res.Problem != "" {
+			sig := fmt.Sprintf("C07:%s:%s:%s", res.Problem, sh.Class, res.Kind)
+			// name the wrapped form (and the site) only when the direct form on the
+			// pipe unary path handles the same case correctly
+			if ref := vf7Run("pipe-unary", pt, ks, declared, sh, false); ref.Problem != res.Problem {
+				sig += ":wrapped-request"
+				if site != "pipe-unary" {
+					if ref2 := vf7Run("pipe-unary", pt, ks, declared, sh, true); ref2.Problem != res.Problem {
+						sig += ":" + site
+					}
+				}
+			}
+			x.Failf(sig, "%s, wrapped request, params %s, inner shape %s: %s", site, pt, sh.Name, res.Detail)
+		}
+		x.Outcome("wrapped|%s", res.Outcome)
 	})
 }
